@@ -312,8 +312,8 @@ func init() {
 			"envelope is sliced behind length checks; both directions agree on hash, label, nonce, additional data and header layout; the crypto " +
 			"functions keep no package state (any key pair round-trips in any order); verifyChoiceMatch rejects on both conditions using the exact " +
 			"outputs and accepts only after the loop over all outputs; match verification is gated by isMatchQuestion; the length field of the envelope is len() of " +
-			"the RSA ciphertext that follows it; no function on the construction/verification path writes package-level state.",
-		NotDecided:  "Round-trip equality and tamper rejection as such (they follow from the primitives given these clauses); the iff of verifyChoiceMatch over all subsets (a marked choice beyond the last existing one is never examined — value-level).",
+			"the RSA ciphertext that follows it; no function on the construction/verification path writes package-level state, and only Seal/Unseal write a front matter's Answer/SealedAnswer; the marked set is examined as a whole, so a mark without a choice is rejected.",
+		NotDecided:  "Round-trip equality and tamper rejection as such (they follow from the primitives given these clauses); the iff of verifyChoiceMatch over all output assignments (decided only clause by clause: both rejecting conditions, acceptance after the whole loop, marks without a choice).",
 		Assumptions: []string{"crypto/aes, crypto/cipher, crypto/rsa behave as documented"},
 		Rules:       []*Rule{ruleCrypto},
 	})
